@@ -63,28 +63,26 @@ Qed.
 Print Assumptions C12_panic_before_write_gets_500.
 
 (* A handler that writes (headers, WriteHeader s, any number of Writes) and returns a status
-   below 400: the client receives status s and the concatenated chunks, ungarbled, the header
-   committed exactly once — for every subset of the directives — provided
-   (a) templates does not buffer the response, and not (`errors visible` and err), or
-   (b) templates buffers it (extension / content type), the handler returned no error and,
-       when it returned < 300 (so that templates executes the body), the body is not a
-       template action. A buffered response whose handler returned 300..399 (browse's
-       redirect) is passed on unchanged.
-   The excluded combinations are false of the code: see the _refuted theorems. *)
+   below 400, with or without an error: the client receives status s and the concatenated
+   chunks, ungarbled, the header committed exactly once — for every subset of the directives,
+   whether templates streams the response, buffers and passes it on (the handler returned
+   300..399, as browse does for its redirect, or an error) or buffers and executes it (then
+   the body must not contain a template action, which is what templates is there to replace)
+   — provided not (`errors visible` and err): see the _refuted theorem. *)
 Theorem C12_written_response_unaltered_partial :
   forall et c path ae sets s bs ret err,
   forallb set_ok sets = true -> status_rule c path = None ->
-  valid_code s = true -> bodyless s = false ->
-  (should_buffer (tmode_of c path) (hs_fun sets []) = false /\ ret < 400 /\
-   (err = false \/ eff_errors c <> EDebug)) \/
-  (should_buffer (tmode_of c path) (hs_fun sets []) = true /\ ret < 400 /\ err = false /\
-   (ret < 300 -> contains (concat bs) TPL_OPEN = false)) ->
+  valid_code s = true -> bodyless s = false -> ret < 400 ->
+  (should_buffer (tmode_of c path) (hs_fun sets []) = true -> ret < 300 -> err = false ->
+   contains (concat bs) TPL_OPEN = false) ->
+  (err = false \/ eff_errors c <> EDebug) ->
   let x := serve et c path ae (sets ++ OWh s :: map OWr bs) ret err in
   cm x = Some s /\ sup x = 0%nat /\ view x = (false, concat bs).
 Proof.
-  intros et c path ae sets s bs ret err Hs Hr Hv Hb [(A & B & C) | (A & B & C & D)].
-  - exact (written_streamed et c path ae sets s bs ret err Hs Hr Hv Hb B C A).
-  - exact (written_buffered et c path ae sets s bs ret err Hs Hr Hv Hb B C A D).
+  intros et c path ae sets s bs ret err Hs Hr Hv Hb Hret Htpl He.
+  destruct (should_buffer (tmode_of c path) (hs_fun sets [])) eqn:A.
+  - exact (written_buffered et c path ae sets s bs ret err Hs Hr Hv Hb Hret He A (Htpl eq_refl)).
+  - exact (written_streamed et c path ae sets s bs ret err Hs Hr Hv Hb Hret He A).
 Qed.
 Print Assumptions C12_written_response_unaltered_partial.
 
@@ -97,23 +95,25 @@ Example C12_written_response_unaltered_partial_nonvacuous :
    cm x = Some 404 /\ view x = (false, bs "hello")) /\
   (* browse's redirect behind templates (DESIGN A17) *)
   (let x := serve (fun _ => []) c (bs "/x.html") true ([] ++ OWh 301 :: map OWr [bs "Moved"]) 301 false in
-   cm x = Some 301 /\ view x = (false, bs "Moved")).
+   cm x = Some 301 /\ view x = (false, bs "Moved")) /\
+  (* a handler that fails after writing *)
+  (let x := serve (fun _ => []) c (bs "/x.html") true ([] ++ OWh 404 :: map OWr [bs "custom"]) 0 true in
+   cm x = Some 404 /\ view x = (false, bs "custom")).
 Proof. vm_compute. repeat split; reflexivity. Qed.
 
-(* The unrestricted clause is false: templates buffers a response written by the inner
-   handler, the handler returns (0, err), the buffered response is dropped and the client
-   receives 200 with an empty body. *)
+(* The unrestricted clause is false: under `errors visible` a handler that wrote its response
+   and returns (0, err) gets the error text appended to its body by a second WriteHeader. *)
 Theorem C12_written_response_unaltered_refuted :
   exists et c path ae sets s bs ret err,
   forallb set_ok sets = true /\ status_rule c path = None /\ valid_code s = true /\ bodyless s = false /\
   ret < 400 /\
   let x := serve et c path ae (sets ++ OWh s :: map OWr bs) ret err in
-  cm x = Some 200 /\ s = 404 /\ view x = (false, []) /\ concat bs <> [].
+  cm x = Some s /\ sup x = 1%nat /\ view x <> (false, concat bs).
 Proof.
   exists (fun _ => []),
     {| c_reqid := false; c_limits := false; c_log := false; c_rewrite := false; c_gzip := false; c_header := false;
-       c_errors := ENone; c_status := None; c_mime := false; c_templates := true |},
-    (bs "/x.html"), false, [], 404, [bs "custom not found"], 0, true.
+       c_errors := EDebug; c_status := None; c_mime := false; c_templates := false |},
+    (bs "/x.txt"), false, [], 200, [bs "a"], 0, true.
   vm_compute. repeat split; try reflexivity; try discriminate.
 Qed.
 Print Assumptions C12_written_response_unaltered_refuted.
